@@ -626,7 +626,7 @@ func runCheck(c *Config) int {
 				}
 				continue
 			}
-			if native && !strings.HasPrefix(v.Label, "C19 restart") {
+			if native && !strings.HasPrefix(v.Label, "C19 restart") && !strings.HasPrefix(v.Label, "C19 determinism: time.") { // engine-side observations have no native twin
 				out, err := rp.run(strings.TrimSuffix(r.Spec.Name, "#rev"), v.Model)
 				if err != nil {
 					notes = append(notes, "replay failed: "+err.Error())
